@@ -163,3 +163,13 @@ Proof.
   unfold valid_5_5_1 in H551. rewrite !andb_true_iff in H551. destruct H551 as [[[Hnd _] _] _].
   destruct Hsil as [_ [_ [_ [_ [Hsp _]]]]]. apply (spreads_silent_5_5_2_3 pi S F D Hpi Himpl Hnd Hsp).
 Qed.
+
+(** acyclicity in the shape C01 uses *)
+Theorem memo_accepted_acyclic_spreads pi S F D :
+  order_ok pi -> validate_model_memo repaired pi S F D = Done [] -> acyclic_spreads D.
+Proof.
+  intros Hpi H. pose proof (memo_accepted_silent pi S F D H) as Hsil.
+  destruct (silent_rules_hold pi S F D Hpi Hsil) as [_ [H551 _]].
+  unfold valid_5_5_1 in H551. rewrite !andb_true_iff in H551. destruct H551 as [[[Hnd _] _] _].
+  destruct Hsil as [_ [_ [_ [_ [Hsp _]]]]]. apply (spreads_silent_acyclic_spreads pi S F D Hpi Hnd Hsp).
+Qed.
